@@ -22,7 +22,15 @@ pub fn main(sub: &str, args: &[String]) -> i32 {
     match sub {
         s if s.starts_with("doc-attr-") => attr::main(s, args),
         s if s.starts_with("doc-cost-") => cost::main(s, args),
-        "doc-replay" => replay(args),
+        "doc-replay" => {
+            // deep recursion of the code under test must not take the harness down
+            let owned: Vec<String> = args.to_vec();
+            std::thread::Builder::new()
+                .stack_size(1 << 29)
+                .spawn(move || replay(&owned))
+                .map(|h| h.join().unwrap_or(2))
+                .unwrap_or(2)
+        }
         "doc-record" => gen::record(args),
         "doc-textedit" => gen::textedit(args),
         _ => {
